@@ -376,3 +376,45 @@ PROPS["C12"] = dict(
     assumptions=COMMON_ASSUME + ["spec.rs::crc_bit_step is the reference (eight explicit shift/xor steps); anchored by the catalogue check value 0x0376E6E7"],
     outside=["PDUs longer than 16 bytes in the differential member (covered by the induction argument)"],
 )
+
+C13_RX_Q = ["rx_complete_bc_o2", "rx_complete_6b_o0", "rx_complete_3b_m3", "rx_complete_ru_o4_o6", "rx_complete_bc_o2_mfinal", "rx_complete_bc_mfinal2",
+            "rx_complete_bc_unknown_m3", "rx_complete_bc_unknown_second"]
+C13_RX_T = ["rx_complete_bc_m3_o8_m0", "rx_complete_bc_o2_o4_o6_o8"]
+# first fragments WITH extensions on the receiver side: ~17 min and ~25 GB each (measured) -> optional deepening, thorough tier only
+C13_RX_OPT = ["rx_first_bc_o2", "rx_first_6b_m3_o0", "rx_first_bc_mfinal0", "rx_first_bc_unknown_m0"]
+C13_RX_BOUNDS = ("every packet that is the standard's layout of (kind, label type, chain of the named shape with symbolic ids and data, protocol type, payload <= 6 bytes) "
+                 "followed by an arbitrary tail, buffer <= 48 bytes; receiver: RefMem (1 slot, one free 6-byte buffer), manager knowing exactly the chain's mandatory ids "
+                 "(or all but one in the 'unknown' members), arbitrary remembered label")
+
+def c13_unwindset(name):
+    # chain length from the harness name: entries are the tokens after the label type
+    toks = name.split("_")[3:]
+    toks = [t for t in toks if t not in ("unknown", "second")]
+    m = max(1, len(toks))
+    k = m + 2
+    return {"iterate_over_extension_header": k, "header_extension9Extension": k, "memcmp": 8}
+
+
+PROPS["C13"] = dict(
+    claim="Bounded model checking of both sides of the extension-header path on the compiled code, joined by the packet layout of spec.rs. Sender: for each chain shape "
+          "(1..2 entries quick, up to 4 thorough; every optional H-LEN class; mandatory entries of 0/2/3/8 data bytes) with symbolic ids and data, every label, protocol "
+          "type and buffer length, encap_ext returns Ok only for encodable combinations and then the bytes are exactly the standard's layout of that chain, with the "
+          "on-wire length reported (complete and first fragment). Receiver: every such layout is decoded to exactly the same ordered extension list, protocol type, label "
+          "and PDU; a chain with a mandatory id unknown to the manager is dropped consuming exactly its own length. Constructor: for ALL 65536 ids x data lengths 0..=10, "
+          "Extension::new never panics and succeeds exactly per the H-LEN table.",
+    note="Trusted: Kani/CBMC/CaDiCaL; spec.rs (layout, ext_area) as the meeting point of the sender and receiver lemmas; header stub (C14). Continuation of a fragmented PDU with extensions is the C02/C03 step (the context keeps the list: rx lemmas).",
+    harnesses=[H("c13::extension_new_total", bounds="all 65536 ids x data length 0..=10, all data bytes", unwind=12, cost=5)]
+              + ext_sender_members()
+              + [H(f"c13::{n}", bounds=C13_RX_BOUNDS, unwind="24 for the harness's own packet writer; walker / Vec<Extension> drop / clone loops: chain length + 2; memcmp 8",
+                   unwindset=c13_unwindset(n), stubs=["read_gse_header -> per-kind-and-label-type spec stub (C14 lemma)"], cost=200, timeout=1200, mem_gb=6, covers="any", family="rx_ext") for n in C13_RX_Q]
+              + [H(f"c13::{n}", tier="thorough", required=False, bounds=C13_RX_BOUNDS, unwind="24; walker etc.: chain length + 2", unwindset=c13_unwindset(n),
+                   stubs=["read_gse_header -> per-kind-and-label-type spec stub (C14 lemma)"], cost=900, timeout=3000, mem_gb=32, covers="any") for n in C13_RX_OPT]
+              + [H(f"c13::{n}", tier="thorough", bounds=C13_RX_BOUNDS, unwind="24; walker etc.: chain length + 2", unwindset=c13_unwindset(n),
+                   stubs=["read_gse_header -> per-kind-and-label-type spec stub (C14 lemma)"], cost=300, timeout=2400, mem_gb=12, covers="any", family="rx_ext") for n in C13_RX_T]
+              + [T("c13::twin_sender_o2", cost=40), T("c13::twin_rx_complete_bc_o2", cost=60, stubs=STUB_HDR)] + PREREQ_HDR
+              + rx_members(["inter_match_ext", "end_match_ext"], whole_family=False),
+    functions=ENCAP_FNS + DECAP_FNS + ["dvb_gse_rust::gse_encap::Encapsulator::<C>::encap_ext", "dvb_gse_rust::header_extension::Extension::new"],
+    assumptions=COMMON_ASSUME + [ENC_STATE_INV, "distinct ids among the mandatory entries of one chain", "ConstCrc as calculator"],
+    prereq_note=["C14 header codec"],
+    outside=["chains longer than 4 entries; mandatory data longer than 8 bytes; PDUs longer than 5..6 bytes on this path", "total-length / CRC semantics with extensions beyond what the crate's own sender and receiver agree on"],
+)
